@@ -64,9 +64,15 @@ Push(list, loc, force) ==
            ReplaceLast(list, Cp(JoinC(Push(<<loc.x>>, v.x, force))))
       [] OTHER -> Append(list, loc)
 
-\* gts.Join: reduce with force = TRUE; a single survivor is returned bare
+\* gts.Join: reduce with force = TRUE, repeated until the list stops
+\* shrinking; a single survivor is returned bare
+RECURSIVE ReduceFix(_)
+ReduceFix(list) ==
+  IF Len(list) <= 1 THEN list
+  ELSE LET next == PushAll(<<>>, list, TRUE)
+       IN IF Len(next) = Len(list) THEN next ELSE ReduceFix(next)
 JoinC(xs) ==
-  LET list == PushAll(<<>>, xs, TRUE)
+  LET list == ReduceFix(PushAll(<<>>, xs, TRUE))
   IN IF Len(list) = 1 THEN list[1] ELSE Jn(list)
 
 RECURSIVE FlattenOrd(_)
